@@ -214,8 +214,53 @@ def rule_scan_all_notes(ctx, R="C14/scan-all-notes"):
         ctx.check(bool(okx), R, "found-returns", b.where(bi), "a build-id note found in a segment is returned", "no success return follows the lookup")
 
 
+def rule_text_section_predicate(ctx, R="C14/text-section"):
+    """the XOR-fold fallback hashes the first page of the first EXECUTABLE section: is_executable_section(h) must be
+    sh_type == SHT_PROGBITS(1) && SHF_ALLOC(0x2) set && SHF_EXECINSTR(0x4) set   (ELF gABI values, not read from the code)"""
+    from rules import c06
+    from engine import ipe
+    b = ctx.body(R, MR + "::is_executable_section")
+    if b is None:
+        return
+    bad = []
+    try:
+        for ty in (0, 1, 7, 8):
+            for flags in (0, 1, 2, 3, 4, 5, 6, 7, 0x10, 0x12, 0x14, 0x16, 0x36):
+                def leaf(e, ty=ty, flags=flags):
+                    e = core(e)
+                    if e[0] == "field" and e[2] == "sh_type":
+                        return (ty, "u32")
+                    if e[0] == "field" and e[2] == "sh_flags":
+                        return (flags, "u64")
+                    if e[0] == "call" and e[1].split("::")[-1] == "from" and e[2]:
+                        return None
+                    return None
+                got = c06.bool_fn_truth(ctx.prog, b, leaf)
+                want = ty == 1 and bool(flags & 2) and bool(flags & 4)
+                if got != want:
+                    bad.append("sh_type=%d sh_flags=%#x -> %s" % (ty, flags, got))
+    except ipe.Unsupported as e:
+        ctx.unproven(R, "predicate", b.where(0), "cannot evaluate is_executable_section: %s" % e)
+        return
+    ctx.check(not bad, R, "predicate", b.where(0), "a section is the text section iff PROGBITS and ALLOC and EXECINSTR (52-row table against the gABI constants)",
+              "is_executable_section is not `PROGBITS && ALLOC && EXECINSTR`: %s" % "; ".join(bad[:4]))
+    # and the fallback hashes the FIRST section satisfying it
+    g = ctx.body(R, MR + "::ModuleReader::build_id_generate_from_text")
+    if g is not None:
+        o = Origin(g)
+        finds = [bi for bi, t in g.calls(lambda c: (c.short or "").split("::")[-1] == "find")]
+        ok = False
+        for bi in finds:
+            a = o.call_args(bi)
+            fn = strip(a[1])
+            ok = ok or (fn[0] in ("fn", "const", "named") and "is_executable_section" in str(fn)) or "is_executable_section" in show(fn)
+        ctx.check(ok, R, "first-match", g.where(finds[0]) if finds else None, "the fallback takes the first section (in header order) that satisfies the predicate",
+                  "build_id_generate_from_text does not select the section with find(is_executable_section)")
+
+
 def run(ctx):
     rule_total(ctx)
     rule_strategy_order(ctx)
     rule_scan_all_notes(ctx)
+    rule_text_section_predicate(ctx)
     rule_mem_file_siblings(ctx)
